@@ -204,27 +204,35 @@ func ParseShapes(files ...string) (map[string]Shape, error) {
 								for _, e := range v.Elts {
 									k, ok := evalInt(e, nil)
 									if !ok {
-										return nil, fmt.Errorf("index array %s: element not an integer", n.Name)
+										arr = nil // not an index array of the generated shapes: ignored
+										break
 									}
 									arr = append(arr, int(k))
 								}
-								idxArrays[n.Name] = arr
+								if arr != nil || len(v.Elts) == 0 {
+									idxArrays[n.Name] = arr
+								}
 							case *ast.MapType:
 								for _, e := range v.Elts {
-									kv := e.(*ast.KeyValueExpr)
+									kv, isKV := e.(*ast.KeyValueExpr)
+									if !isKV {
+										delete(maps, n.Name)
+										break
+									}
 									k, ok := evalInt(kv.Key, nil)
 									if !ok {
-										return nil, fmt.Errorf("map %s: key not an integer", n.Name)
+										delete(maps, n.Name)
+										break
 									}
 									switch val := kv.Value.(type) {
 									case *ast.SliceExpr:
 										lo, _ := evalInt(val.Low, nil)
 										hi, _ := evalInt(val.High, nil)
-										maps[n.Name] = append(maps[n.Name], rawMapEntry{key: k, name: val.X.(*ast.Ident).Name, lo: int(lo), hi: int(hi)})
+										if id, isId := val.X.(*ast.Ident); isId {
+											maps[n.Name] = append(maps[n.Name], rawMapEntry{key: k, name: id.Name, lo: int(lo), hi: int(hi)})
+										}
 									case *ast.Ident:
 										maps[n.Name] = append(maps[n.Name], rawMapEntry{key: k, name: val.Name, whole: true})
-									default:
-										return nil, fmt.Errorf("map %s: unrecognised value", n.Name)
 									}
 								}
 							}
@@ -235,16 +243,57 @@ func ParseShapes(files ...string) (map[string]Shape, error) {
 		}
 	}
 	res := map[string]Shape{}
+	Failed = nil
 	for _, fd := range funcs {
+		sh, tname, err := func() (sh Shape, tname string, err error) {
+			defer func() {
+				if p := recover(); p != nil {
+					err = fmt.Errorf("%s: unrecognised shape (%v)", tname, p)
+				}
+			}()
+			return parseOneShape(fd, strConsts, idxArrays, func(mn string) []MapEntry {
+				var out []MapEntry
+				for _, e := range maps[mn] {
+					s := strConsts[e.name]
+					if !e.whole {
+						if e.lo < 0 || e.hi > len(s) || e.lo > e.hi {
+							panic("map slice out of range")
+						}
+						s = s[e.lo:e.hi]
+					}
+					out = append(out, MapEntry{e.key, s})
+				}
+				return out
+			})
+		}()
+		if tname == "" {
+			continue
+		}
+		if err != nil {
+			Failed = append(Failed, tname)
+			continue
+		}
+		res[tname] = sh
+	}
+	sort.Strings(Failed)
+	return res, nil
+}
+
+// Failed lists the types whose String method ParseShapes could not read (a shape it does not know);
+// the caller decides what to do about them.
+var Failed []string
+
+func parseOneShape(fd *ast.FuncDecl, strConsts map[string]string, idxArrays map[string][]int, mapOf func(string) []MapEntry) (Shape, string, error) {
+	{
 		var tname string
 		switch t := fd.Recv.List[0].Type.(type) {
 		case *ast.Ident:
 			tname = t.Name
 		default:
-			continue
+			return Shape{}, "", nil
 		}
 		if fd.Recv.List[0].Names == nil || fd.Recv.List[0].Names[0].Name != "i" {
-			continue // not a generated method (e.g. Latitude)
+			return Shape{}, "", nil // not a generated method (e.g. Latitude)
 		}
 		sh := Shape{Type: tname}
 		body := fd.Body.List
@@ -308,7 +357,7 @@ func ParseShapes(files ...string) (map[string]Shape, error) {
 				case token.EQL:
 					v, ok := evalInt(cond.Y, nil)
 					if !ok {
-						return nil, fmt.Errorf("%s: case value", tname)
+						return Shape{}, tname, fmt.Errorf("%s: case value", tname)
 					}
 					run.Lo, run.Hi = v, v
 				case token.LAND:
@@ -317,11 +366,11 @@ func ParseShapes(files ...string) (map[string]Shape, error) {
 					lo, ok1 := evalInt(l.X, nil)
 					hi, ok2 := evalInt(h.Y, nil)
 					if !ok1 || !ok2 || l.Op != token.LEQ || h.Op != token.LEQ {
-						return nil, fmt.Errorf("%s: case bounds", tname)
+						return Shape{}, tname, fmt.Errorf("%s: case bounds", tname)
 					}
 					run.Lo, run.Hi = lo, hi
 				default:
-					return nil, fmt.Errorf("%s: unrecognised case condition", tname)
+					return Shape{}, tname, fmt.Errorf("%s: unrecognised case condition", tname)
 				}
 				stmts := cc.Body
 				if off, ok := offOf(stmts[0]); ok {
@@ -330,11 +379,11 @@ func ParseShapes(files ...string) (map[string]Shape, error) {
 				}
 				ret, ok := stmts[0].(*ast.ReturnStmt)
 				if !ok {
-					return nil, fmt.Errorf("%s: case body", tname)
+					return Shape{}, tname, fmt.Errorf("%s: case body", tname)
 				}
 				r, err := retRun(ret.Results[0])
 				if err != nil {
-					return nil, err
+					return Shape{}, tname, err
 				}
 				run.Name, run.Index = r.Name, r.Index
 				sh.Runs = append(sh.Runs, run)
@@ -344,45 +393,35 @@ func ParseShapes(files ...string) (map[string]Shape, error) {
 				sh.Kind = "map"
 				as := first.Init.(*ast.AssignStmt)
 				mn := as.Rhs[0].(*ast.IndexExpr).X.(*ast.Ident).Name
-				for _, e := range maps[mn] {
-					s := strConsts[e.name]
-					if !e.whole {
-						if e.lo < 0 || e.hi > len(s) || e.lo > e.hi {
-							return nil, fmt.Errorf("%s: map slice out of range", tname)
-						}
-						s = s[e.lo:e.hi]
-					}
-					sh.Map = append(sh.Map, MapEntry{e.key, s})
-				}
+				sh.Map = mapOf(mn)
 				sort.Slice(sh.Map, func(a, b int) bool { return sh.Map[a].Key < sh.Map[b].Key })
 			} else { // single run without offset
 				sh.Kind = "single"
 				ret := body[1].(*ast.ReturnStmt)
 				r, err := retRun(ret.Results[0])
 				if err != nil {
-					return nil, err
+					return Shape{}, tname, err
 				}
 				sh.Single = r
 			}
 		case *ast.AssignStmt: // i -= K; if ...; return
 			off, ok := offOf(first)
 			if !ok || len(body) < 3 {
-				return nil, fmt.Errorf("%s: unrecognised method body", tname)
+				return Shape{}, tname, fmt.Errorf("%s: unrecognised method body", tname)
 			}
 			sh.Kind = "single"
 			ret := body[2].(*ast.ReturnStmt)
 			r, err := retRun(ret.Results[0])
 			if err != nil {
-				return nil, err
+				return Shape{}, tname, err
 			}
 			r.Off = off
 			sh.Single = r
 		default:
-			return nil, fmt.Errorf("%s: unrecognised method body", tname)
+			return Shape{}, tname, fmt.Errorf("%s: unrecognised method body", tname)
 		}
-		res[tname] = sh
+		return sh, tname, nil
 	}
-	return res, nil
 }
 
 // LeanCodes renders an ASCII string as a Lean list of character codes.
